@@ -45,6 +45,7 @@ func CmdReplayStates(args []string, seed int64) int {
 	fs := flag.NewFlagSet("lachreplay", flag.ExitOnError)
 	norders := fs.Int("orders", 3, "parents-first orders per DAG")
 	every := fs.Int("trace-every", 10, "record the trace of every M-th DAG for validation against the trace specification")
+	restarts := fs.Bool("restarts", false, "orders 1 and 2 restart the instance after every event / every third event")
 	lazy := fs.Bool("lazy", false, "the model assigned arbitrary allowed frames: Build is not compared")
 	fs.Parse(args)
 	if fs.NArg() < 2 {
@@ -187,7 +188,14 @@ func CmdReplayStates(args []string, seed int64) int {
 			if n%*every == 0 {
 				out = rec
 			}
-			blocks, critical := Play(r, s, PlayOpts{Order: order, BuildEach: !*lazy && k == 0}, out)
+			po := PlayOpts{Order: order, BuildEach: !*lazy && k == 0}
+			if *restarts && k == 1 {
+				po.RestartEvery = 1
+			}
+			if *restarts && k == 2 {
+				po.RestartEvery = 3
+			}
+			blocks, critical := Play(r, s, po, out)
 			for key, v := range out.Stats {
 				if out != rec {
 					stats[key] += v
